@@ -107,6 +107,8 @@ class Report:
     # ---- output
     def write_replay(self, v):
         d = os.path.join(VERIF, "replay", self.pid)
+        if os.environ.get("VERIF_REPO"):
+            d = os.path.join(VERIF, ".build", "scratch_replay", self.pid)
         os.makedirs(d, exist_ok=True)
         fn = re.sub(r"[^A-Za-z0-9_.\-]", "_", v["obligation"])[:150] + ".json"
         p = os.path.join(d, fn)
@@ -168,8 +170,11 @@ class Report:
             "coverage": cov, "assumptions": self.assumptions, "wall_s": round(wall, 2),
             "violations": len(self.violations),
         }
-        os.makedirs(os.path.join(VERIF, "evidence"), exist_ok=True)
-        with open(os.path.join(VERIF, "evidence", self.pid + ".json"), "w") as fh:
+        evdir = os.environ.get("VERIF_EVIDENCE_DIR") or os.path.join(VERIF, "evidence")
+        if os.environ.get("VERIF_REPO") and not os.environ.get("VERIF_EVIDENCE_DIR"):
+            evdir = os.path.join(VERIF, ".build", "scratch_evidence")   # runs against a scratch copy never touch /verif/evidence
+        os.makedirs(evdir, exist_ok=True)
+        with open(os.path.join(evdir, self.pid + ".json"), "w") as fh:
             json.dump(ev, fh, indent=1, default=str)
         for l in lines:
             print(l)
